@@ -60,8 +60,18 @@ def helper_call(which):
         attr = e.args[1].attr if isinstance(e.args[1], ast.Attribute) else None
         k = {'_state_creator': 'State', '_symbol_creator': 'Symbol', '_stack_symbol_creator': 'StackSymbol'}.get(attr)
         if k is None: raise Unsupported(f'{which} with an unknown dictionary')
+        args = [eng.ev(a, st) for a in e.args]
+        if which == '_get_object_from_raw' and len(args) == 3 and args[2].t != Cls[k]:
+            # a dictionary of one class used with another class (not what the source does today): the contract says what the code then does -
+            # the cached object of that key if there is one, else a new object of the *given* class, filed in this dictionary - and the caller's invariant decides
+            c2 = next((kk for kk in KINDS if Cls[kk] == args[2].t), None)
+            if c2 is None: raise Unsupported(f'{which} with an unknown class')
+            c = Contract(f'fn.{which}[{k}<-{c2}]', [('given', Raw), ('obj_converter', MapRO), ('to_type', Cls[c2])], ret=Obj, modifies=('obj_converter',),
+                         ensures=lambda o, r, n: And(r.term == If(dom(o.obj_converter, o.given.term), val(o.obj_converter, o.given.term), mkK[c2](o.given.term)),
+                                                     dom(n.obj_converter, o.given.term), val(n.obj_converter, o.given.term) == r.term, grows(o.obj_converter, n.obj_converter, o.given.term)))
+            return eng.apply_contract(c, None, None, args, st, e.lineno, arg_nodes=[None] + list(e.args))
         c = W.contracts[f'fn.{which}[{k}]']
-        return eng.apply_contract(c, None, None, [eng.ev(a, st) for a in e.args], st, e.lineno, arg_nodes=[None] + list(e.args))
+        return eng.apply_contract(c, None, None, args, st, e.lineno, arg_nodes=[None] + list(e.args))
     return call
 W.ctors['_get_object_from_known'] = helper_call('_get_object_from_known')
 W.ctors['_get_object_from_raw'] = helper_call('_get_object_from_raw')
